@@ -160,7 +160,7 @@ func checkC06(w *World) {
 	scan := map[*ssa.Function]string{}
 	for _, nt := range append(nts, "UnaryExprNegate", "Number") {
 		if h := f.Handlers[nt]; h != nil {
-			for _, fn := range w.handlerClosure(h.Fn) {
+			for _, fn := range w.handlerClosureH(h) {
 				scan[fn] = "handler of " + nt
 			}
 		}
